@@ -40,11 +40,13 @@ type oPtr struct{ s *oStruct }
 type oIface struct {
 	dyn    oval // oPtr / nil
 	opaque *oOpaque
+	styp   types.Type // static type of the value when it was converted at a call site (may be nil)
 }
 type oOpaque struct {
 	name    string
 	bounds  *oStruct // what Bounds() returns
 	isError bool     // an error value (implements the error interface)
+	isRuntimeError bool // a run-time panic value (also implements runtime.Error)
 }
 type oFunc struct {
 	lit  *ast.FuncLit
@@ -201,6 +203,10 @@ func (it *oInterp) zero(t types.Type) oval {
 		return oIface{}
 	case *types.Slice:
 		return oSlice{typ: t}
+	case *types.Array:
+		if u.Len() <= 1<<12 {
+			return it.newSlice(t, int(u.Len()), int(u.Len()))
+		}
 	case *types.Signature:
 		return oNil{}
 	}
@@ -276,6 +282,28 @@ func (it *oInterp) Call(fn *types.Func, recv oval, args []oval, depth int) ([]ov
 	if strings.HasPrefix(fr.why, "panic:") {
 		return nil, fr.why
 	}
+	if ctl == oReturn {
+		// a tuple-valued return that could not be evaluated yields one ⊤: pad to the declared arity
+		want := 0
+		if fd.Type.Results != nil {
+			for _, fld := range fd.Type.Results.List {
+				if n := len(fld.Names); n > 0 {
+					want += n
+				} else {
+					want++
+				}
+			}
+		}
+		for len(fr.results) < want {
+			why := "tuple result not evaluated"
+			if len(fr.results) > 0 {
+				if t, ok := fr.results[0].(oTop); ok {
+					why = t.why
+				}
+			}
+			fr.results = append(fr.results, oTop{why})
+		}
+	}
 	switch ctl {
 	case oAbort:
 		return nil, fr.why
@@ -292,7 +320,7 @@ func (fr *oFrame) abort(format string, a ...interface{}) oCtl {
 		fr.why = fmt.Sprintf(format, a...)
 		if strings.HasPrefix(fr.why, "panic:") && !fr.it.panicActive {
 			fr.it.panicActive = true
-			fr.it.panicVal = oIface{opaque: &oOpaque{name: "runtime error", isError: true}}
+			fr.it.panicVal = oIface{opaque: &oOpaque{name: "runtime error", isError: true, isRuntimeError: true}}
 		}
 	}
 	return oAbort
@@ -470,19 +498,29 @@ func (fr *oFrame) stmt(s ast.Stmt) oCtl {
 	case *ast.DeferStmt:
 		call := s.Call
 		fv := fr.eval(call.Fun)
-		fn, ok := fv.(oFunc)
-		if !ok {
-			return fr.abort("defer of %s at %s", showVal(fv), fr.it.p.Position(s.Pos()))
-		}
 		var args []oval
 		for _, a := range call.Args {
 			args = append(args, fr.rvalue(fr.eval(a)))
 		}
-		fr.defers = append(fr.defers, func() {
-			if _, why := fr.it.CallFunc(fn, args); why != "" && fr.why == "" {
-				fr.why = why
+		switch fn := fv.(type) {
+		case oFunc:
+			fr.defers = append(fr.defers, func() {
+				if _, why := fr.it.CallFunc(fn, args); why != "" && fr.why == "" {
+					fr.why = why
+				}
+			})
+		case oFuncRef:
+			if fr.it.p.Decl(fn.f) == nil {
+				return fr.abort("defer of external %s", fn.f.FullName())
 			}
-		})
+			fr.defers = append(fr.defers, func() {
+				if _, why := fr.it.Call(fn.f, nil, args, fr.depth+1); why != "" && fr.why == "" {
+					fr.why = why
+				}
+			})
+		default:
+			return fr.abort("defer of %s at %s", showVal(fv), fr.it.p.Position(s.Pos()))
+		}
 		return oNormal
 	case *ast.TypeSwitchStmt:
 		return fr.typeSwitch(s)
@@ -681,6 +719,13 @@ func (fr *oFrame) store(l ast.Expr, v oval, define bool) oCtl {
 	case *ast.IndexExpr:
 		return fr.storeIndex(x, v)
 	case *ast.StarExpr:
+		if r, ok := fr.eval(x.X).(oRef); ok {
+			if _, isIface := r.typ.Underlying().(*types.Interface); isIface {
+				v = fr.toIface(v)
+			}
+			*r.cell = fr.rvalue(v)
+			return oNormal
+		}
 		dst := fr.structRef(x)
 		sv, ok := v.(*oStruct)
 		if dst == nil || !ok {
@@ -726,6 +771,18 @@ func oEqual(a, b oval) (eq bool, ok bool) {
 			return x.s == y.s, true
 		case oNil:
 			return x.s == nil, true
+		}
+	case oExt:
+		switch y := b.(type) {
+		case oExt:
+			return x.name == y.name, true
+		case oNil:
+			return false, true
+		case oIface:
+			if e, ok := y.dyn.(oExt); ok {
+				return e.name == x.name, true
+			}
+			return false, true
 		}
 	case oHostFunc:
 		if _, ok := b.(oNil); ok {
@@ -785,6 +842,12 @@ func oEqual(a, b oval) (eq bool, ok bool) {
 			}
 			return oEqual(x.dyn, y.dyn)
 		}
+		if y, ok := b.(oExt); ok {
+			if e, ok := x.dyn.(oExt); ok {
+				return e.name == y.name, true
+			}
+			return false, true
+		}
 	}
 	return false, false
 }
@@ -800,8 +863,23 @@ func (fr *oFrame) evalMulti(e ast.Expr) []oval {
 		}
 		want := fr.info.TypeOf(x.Type)
 		if iv.opaque != nil && iv.opaque.isError {
-			if wi, ok := want.Underlying().(*types.Interface); ok && (wi.NumMethods() == 0 || (wi.NumMethods() == 1 && wi.Method(0).Name() == "Error")) {
-				return []oval{iv, oBool(true)}
+			if wi, ok := want.Underlying().(*types.Interface); ok {
+				fits := true
+				for i := 0; i < wi.NumMethods(); i++ {
+					switch wi.Method(i).Name() {
+					case "Error":
+					case "RuntimeError":
+						if !iv.opaque.isRuntimeError {
+							fits = false
+						}
+					default:
+						fits = false
+					}
+				}
+				if fits {
+					return []oval{iv, oBool(true)}
+				}
+				return []oval{fr.it.zero(want), oBool(false)}
 			}
 		}
 		if iv.opaque != nil || iv.dyn == nil {
@@ -895,6 +973,9 @@ func (fr *oFrame) eval(e ast.Expr) oval {
 				if c := fr.it.global(o); c != nil {
 					return fr.rvalue(*c)
 				}
+				if v, ok := o.(*types.Var); ok && v.Pkg() != nil {
+					return oExt{v.Pkg().Path() + "." + v.Name()}
+				}
 				return oTop{"external " + src(x)}
 			}
 		}
@@ -917,6 +998,9 @@ func (fr *oFrame) eval(e ast.Expr) oval {
 		}
 		return oTop{"selector " + src(x)}
 	case *ast.StarExpr:
+		if r, ok := fr.eval(x.X).(oRef); ok {
+			return fr.rvalue(*r.cell)
+		}
 		if s := fr.structRef(x); s != nil {
 			return s.clone()
 		}
@@ -937,6 +1021,13 @@ func (fr *oFrame) eval(e ast.Expr) oval {
 			}
 			if s := fr.structRef(x.X); s != nil {
 				return oPtr{s}
+			}
+			if id, ok := unparen(x.X).(*ast.Ident); ok {
+				if o := objOf(fr.info, id); o != nil {
+					if c := fr.env.lookup(o); c != nil {
+						return oRef{cell: c, typ: o.Type()}
+					}
+				}
 			}
 			return oTop{"address-of"}
 		case token.SUB:
@@ -1016,6 +1107,9 @@ func (fr *oFrame) eval(e ast.Expr) oval {
 		if _, isSlice := t.Underlying().(*types.Slice); isSlice {
 			return fr.sliceLit(x, t)
 		}
+		if _, isArr := t.Underlying().(*types.Array); isArr {
+			return fr.sliceLit(x, t)
+		}
 		if _, isMap := t.Underlying().(*types.Map); isMap {
 			return fr.mapLit(x, t)
 		}
@@ -1058,6 +1152,9 @@ func (fr *oFrame) eval(e ast.Expr) oval {
 		vs := fr.evalMulti(x)
 		if b, ok := vs[1].(oBool); ok && bool(b) {
 			return vs[0]
+		}
+		if b, ok := vs[1].(oBool); ok && !bool(b) {
+			fr.abort("panic: interface conversion fails in %s at %s", src(x), fr.it.p.Position(x.Pos()))
 		}
 		return oTop{"failing single-result assertion"}
 	case *ast.FuncLit:
@@ -1324,6 +1421,10 @@ func (fr *oFrame) call(call *ast.CallExpr) []oval {
 			}
 			if _, isIface := pt.Underlying().(*types.Interface); isIface {
 				v = fr.toIface(v)
+				if iv, ok := v.(oIface); ok && iv.styp == nil {
+					iv.styp = fr.info.TypeOf(a)
+					v = iv
+				}
 			}
 		}
 		args = append(args, v)
@@ -1792,4 +1893,13 @@ func (it *oInterp) initPackage(tp *types.Package) {
 		}
 	}
 	it.panicActive = saved
+}
+
+// oExt is an external package-level variable known only by name (binary.BigEndian …).
+type oExt struct{ name string }
+
+// oRef is a pointer to a local variable that is not a struct (scalars, slices).
+type oRef struct {
+	cell *oval
+	typ  types.Type
 }
